@@ -15,13 +15,19 @@ def jObs15 (o : Obs15) : LJson :=
     ("per_value", Lean.Json.arr (o.perValue.map fun (n, s, d) =>
         Lean.Json.arr #[Lean.Json.str n, jRes jTree s, jRes jVal d]).toArray),
     ("sub_ser", jRes jFields o.subSer),
-    ("sub_deser", jRes (jNamed jVal) o.subDeser)]
+    ("sub_deser", jRes (jNamed jVal) o.subDeser),
+    ("again", Lean.Json.mkObj [
+      ("deser", jRes (jNamed jVal) o.againDeser),
+      ("rebuilt", jRes (jNamed jVal) o.againRebuilt),
+      ("shared", Lean.Json.bool o.againShared),
+      ("per_value", jNamed (jRes jVal) o.againPerValue)])]
 
 def parseObs15 (j : LJson) : Except String Obs15 := do
   let pv ← (← getArr j "per_value").toList.mapM fun p => do
     let q ← p.getArr?
     if q.size != 3 then throw "per_value: triple expected"
     return (← q[0]!.getStr?, ← parseRes parseTree q[1]!, ← parseRes parseVal q[2]!)
+  let ag ← j.getObjVal? "again"
   return {
     invalid := false
     state := ← parseNamed parseVal (← j.getObjVal? "state")
@@ -31,7 +37,11 @@ def parseObs15 (j : LJson) : Except String Obs15 := do
     rebuilt := ← parseRes (parseNamed parseVal) (← j.getObjVal? "rebuilt")
     perValue := pv
     subSer := ← parseRes parseFields (← j.getObjVal? "sub_ser")
-    subDeser := ← parseRes (parseNamed parseVal) (← j.getObjVal? "sub_deser") }
+    subDeser := ← parseRes (parseNamed parseVal) (← j.getObjVal? "sub_deser")
+    againDeser := ← parseRes (parseNamed parseVal) (← ag.getObjVal? "deser")
+    againRebuilt := ← parseRes (parseNamed parseVal) (← ag.getObjVal? "rebuilt")
+    againShared := ← getBool ag "shared"
+    againPerValue := ← parseNamed (parseRes parseVal) (← ag.getObjVal? "per_value") }
 
 def typeName : PCfg → String
   | .integer _ => "Integer" | .number _ => "Number" | .string => "String" | .boolean => "Boolean"
